@@ -242,6 +242,10 @@ func bodyC30(c c30Case, x *vkit.Ctx) {
 			return false
 		}
 		if !c30Equal(got, eff) {
+			if afterReject && vkit.IsKnown("C30", "file-differs-after-rejected-edit") {
+				x.Excluded() // listed known finding: counted, the rest of the case is still judged
+				return true
+			}
 			sig := "file-differs-after-accepted-edit"
 			if afterReject {
 				sig = "file-differs-after-rejected-edit"
